@@ -43,7 +43,7 @@ def check(scratch, a, t0):
     qs = Q.QueryStats()
     findings = []
     info = {"functions": {}, "paths": {}}
-    timeout_ms = 10000 if a.tier == "quick" else 120000
+    timeout_ms = 45000 if a.tier == "quick" else 180000
     nat = N.NativeBytecode(scratch)
     natc = N.NativeCompiler(scratch)
     for release in (False, True):
